@@ -144,14 +144,22 @@ Definition prim_le_bytes (p : prim) (a b : bytes) : bool :=
 Definition value_bytes_of (p : prim) (v : value) : bytes :=
   match p with PString => str_of v | _ => le_enc (prim_size p) (num_of v) end.
 
+(** a bound of a numeric column is a value of the type - the right width, and
+    not a NaN (against a NaN bound every comparison is false, so it bounds nothing) *)
+Definition bound_wf (p : prim) (b : bytes) : bool :=
+  match p with
+  | PString | PBool => true
+  | _ => Nat.eqb (length b) (prim_size p) && negb (prim_is_nan p (le_dec b))
+  end.
+
 Definition stats_sound (p : prim) (maxdef : N) (entries : list entry) (st : statistics) : bool :=
   let vals := flat_map (fun e => match e_val e with Some v => if is_value maxdef e then [v] else [] | None => [] end) entries in
   let nils := nlen (filter (fun e => negb (is_value maxdef e)) entries) in
   let nonnan := filter (fun v => negb (prim_is_nan p (num_of v))) vals in
   (match st_null_count st with Some n => Z.eqb n (Z.of_N nils) | None => true end)
   && (match st_min_value st with
-      | Some mn => negb (Nat.eqb (length vals) 0) && forallb (fun v => prim_le_bytes p mn (value_bytes_of p v)) nonnan
+      | Some mn => negb (Nat.eqb (length vals) 0) && bound_wf p mn && forallb (fun v => prim_le_bytes p mn (value_bytes_of p v)) nonnan
       | None => true end)
   && (match st_max_value st with
-      | Some mx => negb (Nat.eqb (length vals) 0) && forallb (fun v => prim_le_bytes p (value_bytes_of p v) mx) nonnan
+      | Some mx => negb (Nat.eqb (length vals) 0) && bound_wf p mx && forallb (fun v => prim_le_bytes p (value_bytes_of p v) mx) nonnan
       | None => true end).
